@@ -4,11 +4,11 @@
 B="$1"; shift
 W=/tmp/cijverif.benign.$$
 git -C /repo worktree add -q --detach $W HEAD || exit 2
-cd $W && git apply /verif/benign/$B/patch.diff || { echo "patch does not apply"; cd /; git -C /repo worktree remove --force $W; exit 2; }
+cd $W && git apply /verif/benign/$B/patch.diff || { echo "patch does not apply"; cd /; git -C /repo worktree remove --force $W; rm -rf /tmp/cijverif.scratch_out/$(basename $W); exit 2; }
 cd /verif
 for id in "$@"; do
   PYTHONPATH=$W CIJ_REPO=$W ./check "$id" --tier quick > /tmp/cijverif.ben.$$ 2>&1; rc=$?
   echo "== $B $id rc=$rc : $(grep -c '^VIOLATION' /tmp/cijverif.ben.$$) violation lines; $(grep '^  ->' /tmp/cijverif.ben.$$ | head -1 | cut -c1-200)"
 done
 rm -f /tmp/cijverif.ben.$$
-cd /; git -C /repo worktree remove --force $W
+cd /; git -C /repo worktree remove --force $W; rm -rf /tmp/cijverif.scratch_out/$(basename $W)
